@@ -17,6 +17,7 @@ EXPLANATION = (
     "__ne__ negates __eq__; (4) folded tables: step tables strictly ascending within 0..255, palettes of 256/88 entries, 16 distinct basic names, flag constants pairwise disjoint and "
     "disjoint from the colour fields."
     ' Added after seed round 3: (7) AttrSpec.colors recognises each depth by exactly the flag pair the setters store for it (masks folded to integers; only 88 is told by its mode flag); (8) the hN branch of the 256/88 parsers accepts exactly 0..colours-1 (bound folded, compared as an interval).'
+    " Round 4: (9) the 256-colour gray ramp and cube step tables equal xterm's closed forms (8 + 10*i; 0, 95 + 40*(i-1))."
 )
 NOT_DECIDED = "Nearest-entry correctness, idempotence of parse(describe(x)), RGB values - value-level facts; range-check raises in the describers depend on the stored value's range (covered only through the twin comparison)."
 ASSUMPTIONS = ["Range-check `raise ValueError(num)` in _color_desc_* is assumed unreachable for values the parsers produce (table entries with reason)."]
